@@ -1,6 +1,1022 @@
-//! Property C14 — correspondence / expectation run (see DESIGN.md §5, C14).
+//! Property C14 — streaming KZG: the space-efficient committer/prover equals the time-efficient
+//! one, the verifier accepts exactly the true values, the folded-polynomial iterators enumerate the
+//! successive foldings (DESIGN.md §5, C14).
+//!
+//! The streaming key has private fields: it is made by `CommitterKey::new` from a ChaCha20 RNG and
+//! the trapdoor τ is recovered by replaying a clone of the RNG (first field draw) and *verified*
+//! against every published power.  The generators are not known as scalars, so the model runs with
+//! `g = g2 = 1` and a group element `P` is compared as `P == s·G`, `G = powers_of_g[0]`, with `s`
+//! computed by the harness from τ and then compared with the model's scalar.
+use crate::common::*;
+use crate::wire::{self, Req};
 use crate::Ctx;
+use ark_bls12_381::{Bls12_381, Fr, G1Affine, G1Projective};
+use ark_ec::{AffineRepr, CurveGroup};
+use ark_ff::{Field, One, UniformRand, Zero};
+use ark_poly_commit::streaming_kzg::{
+    Commitment, CommitterKey, CommitterKeyStream, EvaluationProof, FoldedPolynomialStream,
+    FoldedPolynomialTree, VerifierKey,
+};
+use ark_std::iterable::{Iterable, Reverse};
+use ark_std::rand::RngCore;
+
+type E = Bls12_381;
+const BUFS: &[usize] = &[1, 2, 3, 7, 64, 1 << 20];
+
+// ------------------------------------------------------------------------------------------------
+// plain field / polynomial arithmetic of the harness (the "spec" side)
+// ------------------------------------------------------------------------------------------------
+
+fn horner(p: &[Fr], x: Fr) -> Fr {
+    p.iter().rev().fold(Fr::zero(), |acc, c| acc * x + c)
+}
+
+fn eval_be(p: &[Fr], x: Fr) -> Fr {
+    p.iter().fold(Fr::zero(), |acc, c| acc * x + c)
+}
+
+/// ∏ (X - a), little-endian
+fn vanishing(points: &[Fr]) -> Vec<Fr> {
+    let mut z = vec![Fr::one()];
+    for a in points {
+        let mut nz = vec![Fr::zero(); z.len() + 1];
+        for (i, c) in z.iter().enumerate() {
+            nz[i + 1] += c;
+            nz[i] -= *a * c;
+        }
+        z = nz;
+    }
+    z
+}
+
+/// schoolbook division by a monic `z` of degree m: (quotient, remainder padded to m), little-endian
+fn divmod(p: &[Fr], z: &[Fr]) -> (Vec<Fr>, Vec<Fr>) {
+    let m = z.len() - 1;
+    let mut r = p.to_vec();
+    if r.len() < m {
+        r.resize(m, Fr::zero());
+    }
+    let mut q = vec![Fr::zero(); r.len() - m];
+    for i in (m..r.len()).rev() {
+        let c = r[i];
+        q[i - m] = c;
+        for j in 0..=m {
+            r[i - m + j] -= c * z[j];
+        }
+    }
+    r.truncate(m);
+    (q, r)
+}
+
+fn fold_le(cs: &[Fr], u: Fr) -> Vec<Fr> {
+    cs.chunks(2)
+        .map(|c| if c.len() == 2 { c[0] + u * c[1] } else { c[0] })
+        .collect()
+}
+
+fn foldings_le(cs: &[Fr], chal: &[Fr]) -> Vec<Vec<Fr>> {
+    let mut out = vec![];
+    let mut cur = cs.to_vec();
+    for u in chal {
+        cur = fold_le(&cur, *u);
+        out.push(cur.clone());
+    }
+    out
+}
+
+fn rev(v: &[Fr]) -> Vec<Fr> {
+    v.iter().rev().cloned().collect()
+}
+
+fn lin_comb(ps: &[Vec<Fr>], eta: Fr) -> Vec<Fr> {
+    let n = ps.iter().map(|p| p.len()).max().unwrap_or(0);
+    let mut out = vec![Fr::zero(); n];
+    let mut e = Fr::one();
+    for p in ps {
+        for (i, c) in p.iter().enumerate() {
+            out[i] += e * c;
+        }
+        e *= eta;
+    }
+    out
+}
+
+fn distinct_points(rng: &mut Rng, m: usize) -> Vec<Fr> {
+    let mut v: Vec<Fr> = vec![];
+    while v.len() < m {
+        // small and large values, zero included now and then
+        let x = match range(rng, 0, 5) {
+            0 => Fr::from(rng.next_u32() as u64 % 17),
+            _ => Fr::rand(rng),
+        };
+        if !v.contains(&x) {
+            v.push(x);
+        }
+    }
+    v
+}
+
+/// structured coefficient vectors of exactly `len` entries
+fn gen_coeffs(rng: &mut Rng, len: usize) -> (Vec<Fr>, &'static str) {
+    let mut c: Vec<Fr> = (0..len).map(|_| Fr::rand(rng)).collect();
+    if len == 0 {
+        return (c, "empty");
+    }
+    match range(rng, 0, 9) {
+        0 => {
+            let k = range(rng, 1, len);
+            for x in c.iter_mut().skip(len - k) {
+                *x = Fr::zero();
+            }
+            (c, "high-zeros")
+        }
+        1 => {
+            let k = range(rng, 1, len);
+            for x in c.iter_mut().take(k) {
+                *x = Fr::zero();
+            }
+            (c, "low-zeros")
+        }
+        2 => {
+            for x in c.iter_mut() {
+                if coin(rng) {
+                    *x = Fr::zero();
+                }
+            }
+            (c, "sparse")
+        }
+        3 => {
+            for x in c.iter_mut() {
+                *x = Fr::from(rng.next_u32() as u64 % 3);
+            }
+            (c, "small")
+        }
+        _ => (c, "dense"),
+    }
+}
+
+// ------------------------------------------------------------------------------------------------
+// key with recovered trapdoor
+// ------------------------------------------------------------------------------------------------
+
+struct Key {
+    ck: CommitterKey<E>,
+    tau: Fr,
+    g: G1Affine,
+    max_degree: usize,
+    mep: usize,
+}
+
+impl Key {
+    fn args(&self, r: Req) -> Req {
+        r.arg("g", wire::nat(1))
+            .arg("g2", wire::nat(1))
+            .arg("tau", wire::fe(&self.tau))
+            .arg("D", wire::nat(self.max_degree))
+            .arg("mep", wire::nat(self.mep))
+    }
+    fn desc(&self) -> String {
+        format!("D={} mep={}", self.max_degree, self.mep)
+    }
+    /// `s·G` as the library itself computes it
+    fn comm_of(&self, s: Fr) -> Commitment<E> {
+        self.ck.commit(&[s])
+    }
+    fn g_times(&self, s: Fr) -> G1Affine {
+        (self.g.into_group() * s).into_affine()
+    }
+}
+
+/// `CommitterKey::new` + trapdoor recovery; the whole key is checked against `τ`.
+fn make_key(ctx: &mut Ctx, id: &str, rng: &mut Rng, max_degree: usize, mep: usize) -> Option<Key> {
+    let mut replay = rng.clone();
+    let ck = match guarded(|| CommitterKey::<E>::new(max_degree, mep, rng)) {
+        Ok(ck) => ck,
+        Err(a) => {
+            ctx.rep.expect_fail(
+                id,
+                "streaming_kzg/setup-aborts",
+                &format!("CommitterKey::new({}, {}) aborted: {}", max_degree, mep, a),
+                format!("# CommitterKey::new({}, {}, rng)\n", max_degree, mep),
+            );
+            return None;
+        }
+    };
+    let tau = Fr::rand(&mut replay);
+    let (ok, g) = {
+        let sk = CommitterKeyStream::from(&ck);
+        let pg: &[G1Affine] = sk.powers_of_g.0;
+        let g2s = &sk.powers_of_g2;
+        let mut ok = pg.len() == max_degree + 1
+            && g2s.len() == (max_degree + 1).min(mep + 1)
+            && ck.max_eval_points() + 1 == g2s.len();
+        if ok {
+            let mut cur = pg[0].into_group();
+            for p in pg.iter() {
+                ok &= cur.into_affine() == *p;
+                cur *= tau;
+            }
+            let mut cur2 = g2s[0].into_group();
+            for p in g2s.iter() {
+                ok &= cur2.into_affine() == *p;
+                cur2 *= tau;
+            }
+            ok &= !pg[0].is_zero() && !g2s[0].is_zero();
+        }
+        (ok, pg.first().cloned().unwrap_or(G1Affine::zero()))
+    };
+    if !ok {
+        ctx.rep.expect_fail(
+            id,
+            "streaming_kzg/key-not-powers-of-tau",
+            "the key made by CommitterKey::new is not (g·τ^i, g2·τ^i) for the first field draw τ",
+            format!("# CommitterKey::new({}, {}, rng) with rng of case {}\n", max_degree, mep, id),
+        );
+        return None;
+    }
+    Some(Key {
+        ck,
+        tau,
+        g,
+        max_degree,
+        mep,
+    })
+}
+
+fn verify_outcome(r: Result<Result<(), ark_poly_commit::streaming_kzg::VerificationError>, String>) -> ImplOutcome {
+    match r {
+        Ok(Ok(())) => ImplOutcome::Ok(vec![("b".into(), Expect::Bool(true))]),
+        Ok(Err(_)) => ImplOutcome::Ok(vec![("b".into(), Expect::Bool(false))]),
+        Err(a) => ImplOutcome::Refuse(a),
+    }
+}
+
+fn accepted(o: &ImplOutcome) -> bool {
+    matches!(o, ImplOutcome::Ok(kvs) if kvs.iter().any(|(k, e)| k == "b" && matches!(e, Expect::Bool(true))))
+}
+
+// ------------------------------------------------------------------------------------------------
+// single point
+// ------------------------------------------------------------------------------------------------
+
+fn single_case(ctx: &mut Ctx, i: usize, max_deg: usize) {
+    let id = format!("C14/single/{}", i);
+    let mut rng = rng_for(ctx.seed, "C14/single", i as u64);
+    // length of the coefficient vector: 0 (empty), 1 (degree 0) … max_deg+1; the first cases sweep
+    // the small lengths
+    let len = if i <= 6 { i } else { range(&mut rng, 1, max_deg + 1) };
+    let extra = match range(&mut rng, 0, 3) {
+        0 | 1 => 0,
+        2 => 1,
+        _ => range(&mut rng, 2, 9),
+    };
+    // `CommitterKey::new(0, _)` publishes a single G2 power and no verifier G1 element: a key that
+    // supports evaluation proofs has max_degree >= 1 (the degenerate key is probed separately)
+    let max_degree = ((len.max(1) - 1) + extra).max(1);
+    let mep = range(&mut rng, 1, 8);
+    let key = match make_key(ctx, &id, &mut rng, max_degree, mep) {
+        Some(k) => k,
+        None => return,
+    };
+    let (p, kind) = gen_coeffs(&mut rng, len);
+    let alpha = match range(&mut rng, 0, 7) {
+        0 => Fr::zero(),
+        1 => Fr::one(),
+        _ => Fr::rand(&mut rng),
+    };
+    let desc = format!("single {} len={} kind={}", key.desc(), len, kind);
+    let replay = format!(
+        "# scheme: streaming_kzg single point\n# {}\n# tau={}\n# p={}\n# alpha={}\n",
+        desc,
+        wire::fe(&key.tau),
+        wire::fes(&p),
+        wire::fe(&alpha)
+    );
+    ctx.rep.count(&format!("single/kind-{}", kind));
+    ctx.rep.count(&format!("single/extra-key-{}", extra.min(2)));
+
+    // time-efficient
+    let c_t = key.ck.commit(&p);
+    let (v_t, pi_t) = key.ck.open(&p, &alpha);
+    // spec values
+    let v_spec = horner(&p, alpha);
+    let c_s = horner(&p, key.tau);
+    let q_s = if key.tau != alpha {
+        (c_s - v_spec) * (key.tau - alpha).inverse().unwrap()
+    } else {
+        // τ = α never happens for random draws; fall back to the quotient evaluated directly
+        let (q, _) = divmod(&p, &[-alpha, Fr::one()]);
+        horner(&q, key.tau)
+    };
+    let mut scalars_ok = true;
+    if key.comm_of(c_s) != c_t {
+        scalars_ok = false;
+        ctx.rep.expect_fail(&id, "streaming_kzg/single/commit-not-key-defined",
+            "time commit != p(τ)·G", replay.clone());
+    }
+    if v_t != v_spec {
+        ctx.rep.expect_fail(&id, "streaming_kzg/single/evaluation-wrong",
+            "time open returned an evaluation != p(α)", replay.clone());
+    }
+    if key.g_times(q_s) != pi_t.0 {
+        scalars_ok = false;
+        ctx.rep.expect_fail(&id, "streaming_kzg/single/proof-not-key-defined",
+            "time proof != ((p(τ)-p(α))/(τ-α))·G", replay.clone());
+    }
+    if scalars_ok {
+        ctx.ses.ask(
+            &id,
+            key.args(Req::new("c14.time_open")).arg("p", wire::fes(&p)).arg("alpha", wire::fe(&alpha)),
+            ImplOutcome::Ok(vec![
+                ("c".into(), Expect::Fe(c_s)),
+                ("v".into(), Expect::Fe(v_t)),
+                ("pi".into(), Expect::Fe(q_s)),
+            ]),
+        );
+    }
+
+    // space-efficient, every buffer size
+    {
+        let sk = CommitterKeyStream::from(&key.ck);
+        let stream = Reverse(p.as_slice());
+        let sc = guarded(|| sk.commit(&stream));
+        let mut space_outcome: Option<ImplOutcome> = None;
+        for &buf in BUFS {
+            let so = guarded(|| sk.open(&stream, &alpha, buf));
+            let this = match (&sc, &so) {
+                (Ok(c), Ok((v, pi))) => {
+                    if *c != c_t || *v != v_t || *pi != pi_t {
+                        ctx.rep.expect_fail(&id, "streaming_kzg/single/space-ne-time",
+                            &format!("space commit/open (buffer {}) differs from time: commit_eq={} value_eq={} proof_eq={}",
+                                buf, *c == c_t, *v == v_t, *pi == pi_t),
+                            replay.clone());
+                    }
+                    ImplOutcome::Ok(vec![
+                        ("c".into(), Expect::Fe(c_s)),
+                        ("v".into(), Expect::Fe(*v)),
+                        ("pi".into(), Expect::Fe(q_s)),
+                    ])
+                }
+                (Err(a), _) | (_, Err(a)) => {
+                    ctx.rep.expect_fail(&id, "streaming_kzg/single/space-aborts",
+                        &format!("space commit/open aborted on an in-domain request (buffer {}): {}", buf, a),
+                        replay.clone());
+                    ImplOutcome::Refuse(a.clone())
+                }
+            };
+            if space_outcome.is_none() {
+                space_outcome = Some(this);
+            }
+        }
+        if scalars_ok {
+            ctx.ses.ask(
+                &id,
+                key.args(Req::new("c14.space_open")).arg("p", wire::fes(&p)).arg("alpha", wire::fe(&alpha)),
+                space_outcome.unwrap(),
+            );
+        }
+    }
+
+    // verifier: truth and value+δ, with the key derived from either committer key
+    let delta = rand_nonzero(&mut rng);
+    for vkfrom in 0..2usize {
+        let vk = if vkfrom == 0 {
+            guarded(|| VerifierKey::from(&key.ck))
+        } else {
+            guarded(|| VerifierKey::from(&CommitterKeyStream::from(&key.ck)))
+        };
+        let vk = match vk {
+            Ok(vk) => vk,
+            Err(a) => {
+                ctx.rep.expect_fail(&id, "streaming_kzg/verifier-key-aborts",
+                    &format!("VerifierKey::from aborted (from={}): {}", vkfrom, a), replay.clone());
+                continue;
+            }
+        };
+        for (what, v, must) in [("truth", v_t, true), ("value+delta", v_t + delta, false)] {
+            let out = verify_outcome(guarded(|| vk.verify(&c_t, &alpha, &v, &pi_t)));
+            let acc = accepted(&out);
+            if must && !acc {
+                ctx.rep.expect_fail(&id, &format!("streaming_kzg/single/honest-rejected/vk{}", vkfrom),
+                    "verify did not accept the true evaluation", replay.clone());
+            }
+            if !must && acc {
+                ctx.rep.expect_fail(&id, &format!("streaming_kzg/single/false-accepted/vk{}", vkfrom),
+                    "verify accepted value+δ", replay.clone());
+            }
+            if scalars_ok {
+                ctx.ses.ask(
+                    &format!("{}/verify-{}-vk{}", id, what, vkfrom),
+                    key.args(Req::new("c14.verify"))
+                        .arg("vkfrom", wire::nat(vkfrom))
+                        .arg("c", wire::fe(&c_s))
+                        .arg("alpha", wire::fe(&alpha))
+                        .arg("v", wire::fe(&v))
+                        .arg("pi", wire::fe(&q_s)),
+                    out,
+                );
+            }
+        }
+    }
+    ctx.rep.case(&desc, Some(format!("single/{}/{}/{}", len, kind, extra.min(2))));
+}
+
+// ------------------------------------------------------------------------------------------------
+// multi point / multi polynomial
+// ------------------------------------------------------------------------------------------------
+
+fn multi_case(ctx: &mut Ctx, i: usize, max_deg: usize) {
+    let id = format!("C14/multi/{}", i);
+    let mut rng = rng_for(ctx.seed, "C14/multi", i as u64);
+    let m = if i < 8 { i + 1 } else { range(&mut rng, 1, 8) };
+    let k = if i < 8 { 8 - i } else { range(&mut rng, 1, 8) };
+    // coefficient-vector lengths: at least m (the streaming prover reads m coefficients first),
+    // shorter vectors are exercised by `short_case`
+    let lens: Vec<usize> = (0..k)
+        .map(|_| match range(&mut rng, 0, 5) {
+            0 => m,
+            1 => m + 1,
+            _ => range(&mut rng, m, (max_deg + 1).max(m)),
+        })
+        .collect();
+    let maxlen = *lens.iter().max().unwrap();
+    let max_degree = maxlen - 1 + [0, 0, 1, 5][range(&mut rng, 0, 3)];
+    let max_degree = max_degree.max(m); // the verifier key needs m G1 powers and m+1 G2 powers
+    let mep = range(&mut rng, m, 8);
+    let key = match make_key(ctx, &id, &mut rng, max_degree, mep) {
+        Some(k) => k,
+        None => return,
+    };
+    let mut kinds = vec![];
+    let polys: Vec<Vec<Fr>> = lens
+        .iter()
+        .map(|&l| {
+            let (p, kind) = gen_coeffs(&mut rng, l);
+            kinds.push(kind);
+            p
+        })
+        .collect();
+    let pts = distinct_points(&mut rng, m);
+    let eta: Fr = if coin(&mut rng) { Fr::from(u128::rand(&mut rng)) } else { Fr::rand(&mut rng) };
+    let desc = format!("multi {} points={} polys={} lens={:?}", key.desc(), m, k, lens);
+    let replay = format!(
+        "# scheme: streaming_kzg multi point\n# {}\n# tau={}\n# polys={}\n# points={}\n# eta={}\n",
+        desc,
+        wire::fe(&key.tau),
+        wire::fess(&polys),
+        wire::fes(&pts),
+        wire::fe(&eta)
+    );
+    ctx.rep.count(&format!("multi/points-{}", m));
+    ctx.rep.count(&format!("multi/polys-{}", k));
+
+    let z = vanishing(&pts);
+    if ark_poly_commit::verif_hooks::vanishing_polynomial(&pts) != z {
+        ctx.rep.expect_fail(&id, "streaming_kzg/vanishing-wrong",
+            "vanishing_polynomial != ∏(X - a)", replay.clone());
+    }
+    let evals: Vec<Vec<Fr>> = polys.iter().map(|p| pts.iter().map(|a| horner(p, *a)).collect()).collect();
+    let qr: Vec<(Vec<Fr>, Vec<Fr>)> = polys.iter().map(|p| divmod(p, &z)).collect();
+    let q_s: Vec<Fr> = qr.iter().map(|(q, _)| horner(q, key.tau)).collect();
+    let c_s: Vec<Fr> = polys.iter().map(|p| horner(p, key.tau)).collect();
+    let mut e = Fr::one();
+    let mut batch_s = Fr::zero();
+    for q in &q_s {
+        batch_s += e * q;
+        e *= eta;
+    }
+
+    // time-efficient
+    let cs = key.ck.batch_commit(&polys);
+    let refs: Vec<&Vec<Fr>> = polys.iter().collect();
+    let pi = match guarded(|| key.ck.batch_open_multi_points(&refs, &pts, &eta)) {
+        Ok(pi) => pi,
+        Err(a) => {
+            ctx.rep.expect_fail(&id, "streaming_kzg/multi/time-aborts",
+                &format!("batch_open_multi_points aborted on an in-domain request: {}", a), replay.clone());
+            return;
+        }
+    };
+    let pis: Vec<EvaluationProof<E>> = polys.iter().map(|p| key.ck.open_multi_points(p, &pts)).collect();
+    let mut scalars_ok = true;
+    for j in 0..k {
+        if key.comm_of(c_s[j]) != cs[j] || key.g_times(q_s[j]) != pis[j].0 {
+            scalars_ok = false;
+        }
+    }
+    if key.g_times(batch_s) != pi.0 {
+        scalars_ok = false;
+    }
+    if !scalars_ok {
+        ctx.rep.expect_fail(&id, "streaming_kzg/multi/time-not-key-defined",
+            "time commitments / quotient commitments differ from p(τ)·G, (p / Z)(τ)·G or their η-combination",
+            replay.clone());
+    } else {
+        ctx.ses.ask(
+            &id,
+            key.args(Req::new("c14.time_multi"))
+                .arg("polys", wire::fess(&polys))
+                .arg("pts", wire::fes(&pts))
+                .arg("eta", wire::fe(&eta)),
+            ImplOutcome::Ok(vec![
+                ("pi".into(), Expect::Fe(batch_s)),
+                ("pis".into(), Expect::Fes(q_s.clone())),
+                ("cs".into(), Expect::Fes(c_s.clone())),
+            ]),
+        );
+    }
+
+    // space-efficient: every polynomial, every buffer size; plus the η-combination
+    {
+        let sk = CommitterKeyStream::from(&key.ck);
+        let mut sum = G1Projective::zero();
+        let mut e = Fr::one();
+        for j in 0..k {
+            let stream = Reverse(polys[j].as_slice());
+            let rem_spec = rev(&qr[j].1);
+            let mut first: Option<ImplOutcome> = None;
+            for &buf in BUFS {
+                let this = match guarded(|| sk.open_multi_points(&stream, &pts, buf)) {
+                    Ok((rem, spi)) => {
+                        if spi != pis[j] {
+                            ctx.rep.expect_fail(&id, "streaming_kzg/multi/space-proof-ne-time",
+                                &format!("space open_multi_points proof (poly {}, buffer {}) differs from time", j, buf),
+                                replay.clone());
+                        }
+                        if rem != rem_spec {
+                            ctx.rep.expect_fail(&id, "streaming_kzg/multi/space-remainder-wrong",
+                                &format!("space remainder (poly {}, buffer {}) is not p mod Z", j, buf),
+                                replay.clone());
+                        }
+                        for (a, y) in pts.iter().zip(evals[j].iter()) {
+                            if eval_be(&rem, *a) != *y {
+                                ctx.rep.expect_fail(&id, "streaming_kzg/multi/space-remainder-evaluation",
+                                    &format!("remainder(α) != p(α) (poly {}, buffer {})", j, buf), replay.clone());
+                            }
+                        }
+                        if buf == BUFS[0] {
+                            sum += spi.0.into_group() * e;
+                        }
+                        ImplOutcome::Ok(vec![
+                            ("rem".into(), Expect::Fes(rem)),
+                            ("pi".into(), Expect::Fe(q_s[j])),
+                        ])
+                    }
+                    Err(a) => {
+                        ctx.rep.expect_fail(&id, "streaming_kzg/multi/space-aborts",
+                            &format!("space open_multi_points aborted (poly {}, buffer {}): {}", j, buf, a),
+                            replay.clone());
+                        ImplOutcome::Refuse(a)
+                    }
+                };
+                if first.is_none() {
+                    first = Some(this);
+                }
+            }
+            e *= eta;
+            if scalars_ok {
+                ctx.ses.ask(
+                    &format!("{}/space/{}", id, j),
+                    key.args(Req::new("c14.space_multi"))
+                        .arg("p", wire::fes(&polys[j]))
+                        .arg("pts", wire::fes(&pts)),
+                    first.unwrap(),
+                );
+            }
+        }
+        if sum.into_affine() != pi.0 {
+            ctx.rep.expect_fail(&id, "streaming_kzg/multi/space-batch-ne-time",
+                "Σ ηʲ·space_proofⱼ differs from batch_open_multi_points", replay.clone());
+        }
+        // the streaming prover on the explicitly batched polynomial
+        let comb = lin_comb(&polys, eta);
+        let stream = Reverse(comb.as_slice());
+        match guarded(|| sk.open_multi_points(&stream, &pts, BUFS[i % BUFS.len()])) {
+            Ok((_, spi)) => {
+                if spi != pi {
+                    ctx.rep.expect_fail(&id, "streaming_kzg/multi/space-batch-ne-time",
+                        "space open_multi_points(Σ ηʲ pⱼ) differs from batch_open_multi_points", replay.clone());
+                }
+            }
+            Err(a) => ctx.rep.expect_fail(&id, "streaming_kzg/multi/space-aborts",
+                &format!("space open_multi_points(Σ ηʲ pⱼ) aborted: {}", a), replay.clone()),
+        }
+    }
+
+    // verifier
+    let delta = rand_nonzero(&mut rng);
+    let (fa, fb) = (range(&mut rng, 0, k - 1), range(&mut rng, 0, m - 1));
+    let mut evals_false = evals.clone();
+    evals_false[fa][fb] += delta;
+    for vkfrom in 0..2usize {
+        let vk = if vkfrom == 0 {
+            guarded(|| VerifierKey::from(&key.ck))
+        } else {
+            guarded(|| VerifierKey::from(&CommitterKeyStream::from(&key.ck)))
+        };
+        let vk = match vk {
+            Ok(vk) => vk,
+            Err(a) => {
+                ctx.rep.expect_fail(&id, "streaming_kzg/verifier-key-aborts",
+                    &format!("VerifierKey::from aborted (from={}): {}", vkfrom, a), replay.clone());
+                continue;
+            }
+        };
+        for (what, ev, must) in [("truth", &evals, true), ("value+delta", &evals_false, false)] {
+            let out = verify_outcome(guarded(|| vk.verify_multi_points(&cs, &pts, ev, &pi, &eta)));
+            let acc = accepted(&out);
+            if vkfrom == 0 {
+                if must && !acc {
+                    ctx.rep.expect_fail(&id, "streaming_kzg/multi/honest-rejected",
+                        "verify_multi_points did not accept the true evaluations", replay.clone());
+                }
+            } else if must && !acc {
+                // The key derived from the *stream* committer key holds a single G1 element, so the
+                // commitment of the interpolant is truncated to its constant term: recorded, see the
+                // report of the run.
+                ctx.rep.count(&format!("multi/stream-vk-rejects-truth/points-{}", m));
+                if m == 1 {
+                    ctx.rep.expect_fail(&id, "streaming_kzg/multi/honest-rejected/stream-vk-one-point",
+                        "verify_multi_points (stream-derived key, one point) did not accept the truth", replay.clone());
+                }
+            }
+            if !must && acc {
+                ctx.rep.expect_fail(&id, &format!("streaming_kzg/multi/false-accepted/vk{}", vkfrom),
+                    "verify_multi_points accepted a changed evaluation", replay.clone());
+            }
+            if scalars_ok {
+                ctx.ses.ask(
+                    &format!("{}/verify-{}-vk{}", id, what, vkfrom),
+                    key.args(Req::new("c14.verify_multi"))
+                        .arg("vkfrom", wire::nat(vkfrom))
+                        .arg("cs", wire::fes(&c_s))
+                        .arg("pts", wire::fes(&pts))
+                        .arg("evals", wire::fess(ev))
+                        .arg("pi", wire::fe(&batch_s))
+                        .arg("eta", wire::fe(&eta)),
+                    out,
+                );
+            }
+        }
+    }
+    ctx.rep.case(&desc, Some(format!("multi/{}/{}/{}", m, k, maxlen)));
+}
+
+/// Polynomials with fewer coefficients than evaluation points: the time prover divides (zero
+/// quotient), the streaming prover `unwrap`s the first `m` stream items.
+fn short_case(ctx: &mut Ctx, i: usize) {
+    let id = format!("C14/short/{}", i);
+    let mut rng = rng_for(ctx.seed, "C14/short", i as u64);
+    let m = range(&mut rng, 2, 8);
+    let len = range(&mut rng, 0, m - 1);
+    let key = match make_key(ctx, &id, &mut rng, 8, 8) {
+        Some(k) => k,
+        None => return,
+    };
+    let p: Vec<Fr> = (0..len).map(|_| Fr::rand(&mut rng)).collect();
+    let pts = distinct_points(&mut rng, m);
+    let desc = format!("short {} points={} len={}", key.desc(), m, len);
+    let replay = format!(
+        "# scheme: streaming_kzg multi point, fewer coefficients than points\n# {}\n# tau={}\n# p={}\n# points={}\n# time: open_multi_points(p, points); space: open_multi_points(Reverse(p), points, 1<<20)\n",
+        desc, wire::fe(&key.tau), wire::fes(&p), wire::fes(&pts)
+    );
+    let t = guarded(|| key.ck.open_multi_points(&p, &pts));
+    let sk = CommitterKeyStream::from(&key.ck);
+    let stream = Reverse(p.as_slice());
+    let s = guarded(|| sk.open_multi_points(&stream, &pts, 1 << 20));
+    match (&t, &s) {
+        (Ok(tp), Ok((rem, sp))) => {
+            let mut padded = p.clone();
+            padded.resize(m, Fr::zero());
+            if tp != sp || *rem != rev(&padded) {
+                ctx.rep.expect_fail(&id, "streaming_kzg/multi/short-polynomial/space-ne-time",
+                    "space open_multi_points differs from time on a polynomial shorter than the point set",
+                    replay.clone());
+            }
+        }
+        (Ok(_), Err(a)) => {
+            ctx.rep.expect_fail(&id, "streaming_kzg/multi/short-polynomial/space-aborts",
+                &format!("time open_multi_points answers, space open_multi_points aborts when the polynomial has fewer coefficients ({}) than evaluation points ({}): {}", len, m, a),
+                replay.clone());
+        }
+        (Err(a), _) => {
+            ctx.rep.expect_fail(&id, "streaming_kzg/multi/short-polynomial/time-aborts",
+                &format!("time open_multi_points aborted: {}", a), replay.clone());
+        }
+    }
+    let out = match s {
+        Ok((rem, _)) => ImplOutcome::Ok(vec![("rem".into(), Expect::Fes(rem)), ("pi".into(), Expect::Fe(Fr::zero()))]),
+        Err(a) => ImplOutcome::Refuse(a),
+    };
+    ctx.ses.ask(
+        &id,
+        key.args(Req::new("c14.space_multi")).arg("p", wire::fes(&p)).arg("pts", wire::fes(&pts)),
+        out,
+    );
+    if t.is_ok() {
+        ctx.ses.ask(
+            &format!("{}/time", id),
+            key.args(Req::new("c14.time_multi"))
+                .arg("polys", wire::fess(&[p.clone()]))
+                .arg("pts", wire::fes(&pts))
+                .arg("eta", wire::nat(1)),
+            ImplOutcome::Ok(vec![("pi".into(), Expect::Fe(Fr::zero())), ("pis".into(), Expect::Fes(vec![Fr::zero()]))]),
+        );
+    }
+    ctx.rep.count("multi/short-polynomial");
+    ctx.rep.case(&desc, Some(format!("short/{}/{}", m, len)));
+}
+
+// ------------------------------------------------------------------------------------------------
+// folding iterators
+// ------------------------------------------------------------------------------------------------
+
+fn fold_iterators(ctx: &mut Ctx) {
+    for n in 1..=130usize {
+        for depth in 0..=7usize {
+            let id = format!("C14/fold/{}/{}", n, depth);
+            let mut rng = rng_for(ctx.seed, "C14/fold", (n * 8 + depth) as u64);
+            let cs: Vec<Fr> = (0..n)
+                .map(|_| if range(&mut rng, 0, 9) == 0 { Fr::zero() } else { Fr::rand(&mut rng) })
+                .collect();
+            let chal: Vec<Fr> = (0..depth).map(|_| Fr::rand(&mut rng)).collect();
+            let be = rev(&cs);
+            let be_slice = be.as_slice();
+            let spec = foldings_le(&cs, &chal);
+            let replay = format!(
+                "# scheme: streaming_kzg folding iterators\n# n={} depth={}\n# coefficients (little-endian)={}\n# challenges={}\n",
+                n, depth, wire::fes(&cs), wire::fes(&chal)
+            );
+            // tree
+            let tree = guarded(|| {
+                let t = FoldedPolynomialTree::new(&be_slice, chal.as_slice());
+                (t.iter().collect::<Vec<(usize, Fr)>>(), t.depth(), t.len())
+            });
+            let stream = guarded(|| {
+                let s = FoldedPolynomialStream::new(&be_slice, chal.as_slice());
+                (s.iter().collect::<Vec<Fr>>(), s.len())
+            });
+            let mut outcome_fields = vec![];
+            match &tree {
+                Ok((items, d, l)) => {
+                    let mut ok = *d == depth && *l == n;
+                    for lvl in 1..=depth {
+                        let got: Vec<Fr> = items.iter().filter(|(i, _)| *i == lvl).map(|(_, v)| *v).collect();
+                        ok &= got == rev(&spec[lvl - 1]);
+                    }
+                    ok &= items.iter().all(|(i, _)| *i >= 1 && *i <= depth);
+                    if !ok {
+                        ctx.rep.expect_fail(&id, "streaming_kzg/fold/tree-ne-naive-fold",
+                            "FoldedPolynomialTree does not enumerate the coefficients of the successive foldings",
+                            replay.clone());
+                    }
+                    outcome_fields.push(("tree_levels".to_string(), Expect::Nats(items.iter().map(|x| x.0).collect())));
+                    outcome_fields.push(("tree_values".to_string(), Expect::Fes(items.iter().map(|x| x.1).collect())));
+                }
+                Err(a) => ctx.rep.expect_fail(&id, "streaming_kzg/fold/tree-aborts",
+                    &format!("FoldedPolynomialTree iteration aborted: {}", a), replay.clone()),
+            }
+            match &stream {
+                Ok((items, l)) => {
+                    let want = if depth == 0 { be.clone() } else { rev(&spec[depth - 1]) };
+                    if *items != want || *l != want.len() {
+                        ctx.rep.expect_fail(&id, "streaming_kzg/fold/stream-ne-naive-fold",
+                            &format!("FoldedPolynomialStream: items_ok={} len()={} expected {}", *items == want, l, want.len()),
+                            replay.clone());
+                    }
+                    outcome_fields.push(("stream".to_string(), Expect::Fes(items.clone())));
+                    outcome_fields.push(("stream_len".to_string(), Expect::Nat(*l)));
+                }
+                Err(a) => ctx.rep.expect_fail(&id, "streaming_kzg/fold/stream-aborts",
+                    &format!("FoldedPolynomialStream iteration aborted: {}", a), replay.clone()),
+            }
+            outcome_fields.push((
+                "foldings".to_string(),
+                Expect::Raw(wire::fess(&spec.iter().map(|f| rev(f)).collect::<Vec<_>>())),
+            ));
+            let outcome = if tree.is_ok() && stream.is_ok() {
+                ImplOutcome::Ok(outcome_fields)
+            } else {
+                ImplOutcome::Refuse("abort".into())
+            };
+            ctx.ses.ask(
+                &id,
+                Req::new("c14.fold").arg("cs", wire::fes(&cs)).arg("chal", wire::fes(&chal)),
+                outcome,
+            );
+            ctx.rep.count(&format!("fold/depth-{}", depth));
+            ctx.rep.count(if n % (1 << depth) == 0 { "fold/aligned" } else { "fold/padded" });
+            ctx.rep.case(&format!("fold n={} depth={}", n, depth), Some(format!("fold/{}/{}", n, depth)));
+        }
+    }
+    ctx.flush_model("C14-fold");
+}
+
+/// `commit_folding` / `open_folding` against the time prover on explicitly folded polynomials.
+fn folding_case(ctx: &mut Ctx, i: usize, n: usize, depth: usize) {
+    let id = format!("C14/folding/{}", i);
+    let mut rng = rng_for(ctx.seed, "C14/folding", i as u64);
+    let m = range(&mut rng, 1, 4);
+    let max_degree = (n - 1 + range(&mut rng, 0, 2)).max(m);
+    let mep = m.max(range(&mut rng, 1, 8));
+    let key = match make_key(ctx, &id, &mut rng, max_degree, mep) {
+        Some(k) => k,
+        None => return,
+    };
+    let cs: Vec<Fr> = (0..n).map(|_| Fr::rand(&mut rng)).collect();
+    let chal: Vec<Fr> = (0..depth).map(|_| Fr::rand(&mut rng)).collect();
+    let pts = distinct_points(&mut rng, m);
+    let eta = Fr::rand(&mut rng);
+    let mut etas = vec![];
+    let mut e = Fr::one();
+    for _ in 0..depth {
+        etas.push(e);
+        e *= eta;
+    }
+    let buf = BUFS[i % BUFS.len()];
+    let desc = format!("folding {} n={} depth={} points={} buffer={}", key.desc(), n, depth, m, buf);
+    let replay = format!(
+        "# scheme: streaming_kzg commit_folding/open_folding\n# {}\n# tau={}\n# coefficients={}\n# challenges={}\n# points={}\n# etas={}\n",
+        desc, wire::fe(&key.tau), wire::fes(&cs), wire::fes(&chal), wire::fes(&pts), wire::fes(&etas)
+    );
+    let spec = foldings_le(&cs, &chal);
+    let z = vanishing(&pts);
+    let be = rev(&cs);
+    let be_slice = be.as_slice();
+    let sk = CommitterKeyStream::from(&key.ck);
+
+    // commit_folding
+    let time_cs: Vec<Commitment<E>> = spec.iter().map(|f| key.ck.commit(f)).collect();
+    let c_s: Vec<Fr> = spec.iter().map(|f| horner(f, key.tau)).collect();
+    let key_defined = time_cs.iter().zip(c_s.iter()).all(|(c, s)| key.comm_of(*s) == *c);
+    let got = guarded(|| {
+        let tree = FoldedPolynomialTree::new(&be_slice, chal.as_slice());
+        sk.commit_folding(&tree, buf)
+    });
+    let out = match got {
+        Ok(v) => {
+            if v != time_cs {
+                ctx.rep.expect_fail(&id, "streaming_kzg/folding/commit_folding-ne-time",
+                    "commit_folding differs from the time commitments of the explicitly folded polynomials",
+                    replay.clone());
+            }
+            ImplOutcome::Ok(vec![("cs".into(), Expect::Fes(c_s.clone()))])
+        }
+        Err(a) => {
+            ctx.rep.expect_fail(&id, "streaming_kzg/folding/commit_folding-aborts",
+                &format!("commit_folding aborted: {}", a), replay.clone());
+            ImplOutcome::Refuse(a)
+        }
+    };
+    if key_defined {
+        ctx.ses.ask(
+            &format!("{}/commit", id),
+            key.args(Req::new("c14.commit_folding")).arg("cs", wire::fes(&cs)).arg("chal", wire::fes(&chal)),
+            out,
+        );
+    }
+
+    // open_folding
+    let qr: Vec<(Vec<Fr>, Vec<Fr>)> = spec.iter().map(|f| divmod(f, &z)).collect();
+    let mut want = G1Projective::zero();
+    let mut want_s = Fr::zero();
+    for (j, f) in spec.iter().enumerate() {
+        want += key.ck.open_multi_points(f, &pts).0.into_group() * etas[j];
+        want_s += etas[j] * horner(&qr[j].0, key.tau);
+    }
+    let want_rems: Vec<Vec<Fr>> = qr.iter().map(|(_, r)| rev(r)).collect();
+    let got = guarded(|| {
+        let tree = FoldedPolynomialTree::new(&be_slice, chal.as_slice());
+        sk.open_folding(tree, &pts, &etas, buf)
+    });
+    let out = match got {
+        Ok((rems, proof)) => {
+            if proof.0 != want.into_affine() {
+                ctx.rep.expect_fail(&id, "streaming_kzg/folding/open_folding-proof-ne-time",
+                    "open_folding proof differs from Σ etas[i]·time.open_multi_points(fold^i)", replay.clone());
+            }
+            if rems != want_rems {
+                ctx.rep.expect_fail(&id, "streaming_kzg/folding/open_folding-remainders",
+                    "open_folding remainders are not (fold^i mod Z)", replay.clone());
+            }
+            ImplOutcome::Ok(vec![
+                ("rems".into(), Expect::Raw(wire::fess(&rems))),
+                ("pi".into(), Expect::Fe(want_s)),
+            ])
+        }
+        Err(a) => {
+            ctx.rep.expect_fail(&id, "streaming_kzg/folding/open_folding-aborts",
+                &format!("open_folding aborted: {}", a), replay.clone());
+            ImplOutcome::Refuse(a)
+        }
+    };
+    if key.g_times(want_s) == want.into_affine() {
+        ctx.ses.ask(
+            &format!("{}/open", id),
+            key.args(Req::new("c14.open_folding"))
+                .arg("cs", wire::fes(&cs))
+                .arg("chal", wire::fes(&chal))
+                .arg("pts", wire::fes(&pts))
+                .arg("etas", wire::fes(&etas)),
+            out,
+        );
+    } else {
+        ctx.rep.expect_fail(&id, "streaming_kzg/folding/time-not-key-defined",
+            "time open_multi_points of a folded polynomial is not (fold^i / Z)(τ)·G", replay.clone());
+    }
+    ctx.rep.count(&format!("folding/depth-{}", depth));
+    ctx.rep.case(&desc, Some(format!("folding/{}/{}/{}", n, depth, m)));
+}
+
+/// `CommitterKey::new(max_degree, max_eval_points)` with `max_degree < max_eval_points` publishes
+/// only `max_degree + 1` G2 powers; with `max_degree = 0` the derived verifier key has no G1 element.
+/// Recorded in the distribution and the notes of the run (model and implementation are compared).
+fn degenerate_key_probe(ctx: &mut Ctx) {
+    let id = "C14/degenerate-key/0".to_string();
+    let mut rng = rng_for(ctx.seed, "C14/degenerate-key", 0);
+    let mut replay = rng.clone();
+    let ck = match guarded(|| CommitterKey::<E>::new(0, 3, &mut rng)) {
+        Ok(ck) => ck,
+        Err(_) => return,
+    };
+    let tau = Fr::rand(&mut replay);
+    let c0 = Fr::rand(&mut rng);
+    let alpha = Fr::rand(&mut rng);
+    let c = ck.commit(&[c0]);
+    let (v, pi) = ck.open(&[c0], &alpha);
+    let out = verify_outcome(guarded(|| {
+        let vk = VerifierKey::from(&ck);
+        vk.verify(&c, &alpha, &v, &pi)
+    }));
+    let g2_len = CommitterKeyStream::from(&ck).powers_of_g2.len();
+    ctx.rep.count(&format!("degenerate-key/new(0,3)-g2-powers-{}", g2_len));
+    if !accepted(&out) {
+        ctx.rep.count("degenerate-key/verify-refuses-truth");
+        ctx.rep.notes.push(format!(
+            "CommitterKey::new(0, 3) publishes {} G2 power(s); VerifierKey::from(&ck).verify on the honest opening of a constant polynomial: {:?}",
+            g2_len, out
+        ));
+    }
+    ctx.ses.ask(
+        &id,
+        Req::new("c14.verify")
+            .arg("g", wire::nat(1))
+            .arg("g2", wire::nat(1))
+            .arg("tau", wire::fe(&tau))
+            .arg("D", wire::nat(0))
+            .arg("mep", wire::nat(3))
+            .arg("vkfrom", wire::nat(0))
+            .arg("c", wire::fe(&c0))
+            .arg("alpha", wire::fe(&alpha))
+            .arg("v", wire::fe(&v))
+            .arg("pi", wire::nat(0)),
+        out,
+    );
+    ctx.rep.case("degenerate key new(0,3)", None);
+}
 
 pub fn run(ctx: &mut Ctx) {
-    let _ = ctx;
+    let max_deg = if ctx.thorough { 256 } else { 64 };
+    let n_single = ctx.n(60, 500);
+    for i in 0..n_single {
+        single_case(ctx, i, max_deg);
+    }
+    // the extreme degree of the tier, once
+    single_case(ctx, 1_000_000 + max_deg, max_deg);
+    degenerate_key_probe(ctx);
+    ctx.flush_model("C14-single");
+
+    let n_multi = ctx.n(24, 250);
+    for i in 0..n_multi {
+        multi_case(ctx, i, max_deg);
+    }
+    ctx.flush_model("C14-multi");
+    let n_short = ctx.n(6, 30);
+    for i in 0..n_short {
+        short_case(ctx, i);
+    }
+    ctx.flush_model("C14-short");
+
+    fold_iterators(ctx);
+
+    // commit_folding / open_folding: small exhaustive grid, then random sizes
+    let mut i = 0;
+    let grid: Vec<(usize, usize)> = if ctx.thorough {
+        (1..=20).flat_map(|n| (0..=5).map(move |d| (n, d))).collect()
+    } else {
+        (1..=9).flat_map(|n| (0..=3).map(move |d| (n, d))).collect()
+    };
+    for (n, d) in grid {
+        folding_case(ctx, i, n, d);
+        i += 1;
+    }
+    let n_rand = ctx.n(12, 150);
+    for _ in 0..n_rand {
+        let mut rng = rng_for(ctx.seed, "C14/folding-size", i as u64);
+        let n = range(&mut rng, 1, if ctx.thorough { 130 } else { 70 });
+        let d = range(&mut rng, 0, 7);
+        folding_case(ctx, i, n, d);
+        i += 1;
+    }
+    ctx.flush_model("C14-folding");
 }
